@@ -718,6 +718,15 @@ func runConcBound(c Case, s *hx.Sink) string {
 	return fmt.Sprintf("LruCase %s %s []", hx.N(c.ID), hx.Nat(c.Cap))
 }
 
+type failClose struct {
+	iterable.Iterator[iterable.MapEntry[int, int]]
+}
+
+func (f failClose) Close() error {
+	f.Iterator.Close()
+	return fmt.Errorf("close failed")
+}
+
 // runMixerUse: the library's own users of map iterators.  A Mixer over the iterators of two maps is read (completely,
 // partly, not at all) and closed - the caller owns no other iterator; then the maps are changed (entries added at the
 // end, the former last entries removed).  With every iterator closed each map must hold Len()+1 nodes and no pin.
@@ -733,7 +742,11 @@ func runMixerUse(c Case, s *hx.Sink) string {
 			}
 		}
 		mx := &iterable.Mixer[iterable.MapEntry[int, int]]{}
-		mx.Init(func(a, b iterable.MapEntry[int, int]) bool { return a.Key <= b.Key }, m1.Iterator(), m2.Iterator())
+		var it1 iterable.Iterator[iterable.MapEntry[int, int]] = m1.Iterator()
+		if r.Chance(1, 3) {
+			it1 = failClose{it1} // a source whose Close reports an error (after closing): the other source is closed all the same
+		}
+		mx.Init(func(a, b iterable.MapEntry[int, int]) bool { return a.Key <= b.Key }, it1, m2.Iterator())
 		switch r.Intn(4) {
 		case 0: // not read at all
 		case 1: // partly
